@@ -1,4 +1,5 @@
 import Skglm.Scalar
+import Skglm.Model.Datafits
 /-
   Line protocol of the model driver.
 
@@ -90,4 +91,27 @@ def fmtVec {n : Nat} (v : Fin n → Float) : String :=
 
 def fmtList (v : List Float) : String := " ".intercalate (v.map fmt)
 
+end Skglm.Proto
+
+namespace Skglm.Proto
+/-- CSC matrix with `n` rows and `p` columns: for each column `k (row value)*k` -/
+def pCSC (n p : Nat) : P (CSC Float n p) := do
+  let mut cols : Array (List (Fin n × Float)) := Array.mkEmpty p
+  for _ in [0:p] do
+    let k ← pNat
+    let mut l : Array (Fin n × Float) := Array.mkEmpty k
+    for _ in [0:k] do
+      let r ← pNat
+      let v ← pFloat
+      if h : r < n then l := l.push (⟨r, h⟩, v) else throw "csc-row-out-of-range"
+    cols := cols.push l.toList
+  let c := cols
+  pure (fun j => c.getD j.1 [])
+
+def pFin (n : Nat) : P (Fin n) := do
+  let k ← pNat
+  if h : k < n then pure ⟨k, h⟩ else throw "index-out-of-range"
+
+def fmtMat {n p : Nat} (m : Fin n → Fin p → Float) : String :=
+  " ".intercalate ((List.ofFn (fun i => fmtVec (m i))).filter (· ≠ ""))
 end Skglm.Proto
